@@ -4,6 +4,7 @@ import (
 	"fmt"
 	"os"
 	"path"
+	"path/filepath"
 	"sort"
 	"strings"
 	"testing"
@@ -36,7 +37,13 @@ type c4Case struct {
 	Children int     `json:"children"`
 	// Base: OutputFileBaseName; names that sort before the hand-written files (a generated file is then the first file of its package)
 	Base string `json:"base,omitempty"`
+	// Sib: a second module (replace directive) with an entrypoint package "pkg" (entry "@sib") and a package "dep" that is no
+	// entrypoint but imported by the first package of the main module: which packages count as local must not depend on the
+	// order of the entrypoints
+	Sib bool `json:"sib,omitempty"`
 }
+
+const c4SibPath = "example.org/sib"
 
 func (c c4Case) base() string {
 	if c.Base == "" {
@@ -81,6 +88,12 @@ func genC04(t *rapid.T) c4Case {
 		c.Entries = append(c.Entries, perm[i].Dir)
 	}
 	c.All = rapid.Bool().Draw(t, "all")
+	if rapid.IntRange(0, 3).Draw(t, "sib") == 0 {
+		c.Sib = true
+		at := rapid.IntRange(0, len(c.Entries)).Draw(t, "sibat")
+		c.Entries = append(c.Entries[:at], append([]string{"@sib"}, c.Entries[at:]...)...)
+		ne = len(c.Entries)
+	}
 	if ne >= 2 {
 		idx := make([]int, ne)
 		for i := range idx {
@@ -135,7 +148,7 @@ func callSig(calls []script.Call) string {
 func generatedView(tree modspec.Tree, base string) map[string]string {
 	out := map[string]string{}
 	for p, v := range tree {
-		if p == "gengo.sum" || strings.HasPrefix(path.Base(p), base+".") {
+		if path.Base(p) == "gengo.sum" || strings.HasPrefix(path.Base(p), base+".") {
 			out[p] = v
 		}
 	}
@@ -169,9 +182,55 @@ func diffViews(a, b map[string]string) string {
 }
 
 func oracleC04(c c4Case) error {
-	dir := tempModule(&c.Mod)
-	defer os.RemoveAll(dir)
-	initial := mustSnapshot(dir)
+	var dir, snapRoot string
+	if !c.Sib {
+		dir = tempModule(&c.Mod)
+		defer os.RemoveAll(dir)
+		snapRoot = dir
+	} else {
+		root, err := os.MkdirTemp("", "vtmods")
+		if err != nil {
+			panic("harness: " + err.Error())
+		}
+		if real, err := filepath.EvalSymlinks(root); err == nil {
+			root = real
+		}
+		defer os.RemoveAll(root)
+		dir, snapRoot = filepath.Join(root, "main"), root
+		main := c.Mod
+		main.Pkgs = append([]modspec.Pkg{}, c.Mod.Pkgs...)
+		first := main.Pkgs[0]
+		first.Other = append(append([]modspec.File{}, first.Other...), modspec.File{Name: "zsibdep.go", Data: "package " + first.Name + "\n\nimport _ \"" + c4SibPath + "/dep\"\n"})
+		main.Pkgs[0] = first
+		gomod := "module " + main.Path + "\n"
+		if main.Go != "" {
+			gomod += "\ngo " + main.Go + "\n"
+		}
+		gomod += "\nrequire " + c4SibPath + " v0.0.0\n\nreplace " + c4SibPath + " => ../sib\n"
+		main.Extra = append(append([]modspec.File{}, main.Extra...), modspec.File{Name: "go.mod", Data: gomod})
+		one := func(n string) []modspec.GoFile {
+			return []modspec.GoFile{{Name: "types.go", Decls: []modspec.Decl{{Kind: "struct", Name: n, Fields: []modspec.Field{{Names: []string{"A"}, Type: "int"}}}}}}
+		}
+		sib := modspec.Mod{Path: c4SibPath, Go: main.Go, Pkgs: []modspec.Pkg{{Dir: "pkg", Name: "sibpkg", Files: one("S0")}, {Dir: "dep", Name: "sibdep", Files: one("D0")}}}
+		for _, d := range []string{dir, filepath.Join(root, "sib")} {
+			if err := os.MkdirAll(d, 0o755); err != nil {
+				panic("harness: " + err.Error())
+			}
+		}
+		if err := main.Write(dir); err != nil {
+			panic("harness: " + err.Error())
+		}
+		if err := sib.Write(filepath.Join(root, "sib")); err != nil {
+			panic("harness: " + err.Error())
+		}
+	}
+	entry := func(e string) string {
+		if e == "@sib" {
+			return c4SibPath + "/pkg"
+		}
+		return entry(e)
+	}
+	initial := mustSnapshot(snapRoot)
 	var scripts []*script.Script
 	for _, g := range c.Gens {
 		scripts = append(scripts, g.script())
@@ -206,14 +265,14 @@ func oracleC04(c c4Case) error {
 	if err := check("first run", ref); err != nil {
 		return err
 	}
-	refTree := mustSnapshot(dir)
+	refTree := mustSnapshot(snapRoot)
 	refView := generatedView(refTree, c.base())
 	refSig := callSig(ref.Calls)
 	compare := func(label string, res script.RunResult) error {
 		if err := check(label, res); err != nil {
 			return err
 		}
-		v := generatedView(mustSnapshot(dir), c.base())
+		v := generatedView(mustSnapshot(snapRoot), c.base())
 		if d := diffViews(refView, v); d != "" {
 			return fmt.Errorf("%s from the same initial tree gives different output: %s", label, d)
 		}
@@ -227,7 +286,7 @@ func oracleC04(c c4Case) error {
 		repeats = 5
 	}
 	for i := 0; i < repeats; i++ {
-		if err := initial.Restore(dir); err != nil {
+		if err := initial.Restore(snapRoot); err != nil {
 			panic("harness: restore: " + err.Error())
 		}
 		if err := compare(fmt.Sprintf("repeated run %d", i+2), script.Run(spec(nil))); err != nil {
@@ -235,7 +294,7 @@ func oracleC04(c c4Case) error {
 		}
 	}
 	for pi, perm := range c.Perms {
-		if err := initial.Restore(dir); err != nil {
+		if err := initial.Restore(snapRoot); err != nil {
 			panic("harness: restore: " + err.Error())
 		}
 		if err := compare(fmt.Sprintf("run with entrypoints permuted %v (#%d)", perm, pi), script.Run(spec(perm))); err != nil {
@@ -247,7 +306,7 @@ func oracleC04(c c4Case) error {
 		children += 2
 	}
 	for ci := 0; ci < children; ci++ {
-		if err := initial.Restore(dir); err != nil {
+		if err := initial.Restore(snapRoot); err != nil {
 			panic("harness: restore: " + err.Error())
 		}
 		res, exit, stderr := script.RunChild(spec(nil), os.TempDir())
@@ -259,19 +318,19 @@ func oracleC04(c c4Case) error {
 		}
 	}
 	// second run on the result: no generated file changes
-	if err := initial.Restore(dir); err != nil {
+	if err := initial.Restore(snapRoot); err != nil {
 		panic("harness: restore: " + err.Error())
 	}
 	if err := check("first run (again)", script.Run(spec(nil))); err != nil {
 		return err
 	}
-	after1 := mustSnapshot(dir)
+	after1 := mustSnapshot(snapRoot)
 	if err := check("second run on the result", script.Run(spec(nil))); err != nil {
 		return err
 	}
-	after2 := mustSnapshot(dir)
+	after2 := mustSnapshot(snapRoot)
 	for _, ch := range modspec.Diff(after1, after2) {
-		if ch.Path == "gengo.sum" {
+		if path.Base(ch.Path) == "gengo.sum" {
 			continue
 		}
 		return fmt.Errorf("second run on the result of a run %s %s: %s", ch.Kind, ch.Path, lineDiff([]byte(after1[ch.Path]), []byte(after2[ch.Path])))
@@ -280,7 +339,7 @@ func oracleC04(c c4Case) error {
 		if err := check("third run", script.Run(spec(nil))); err != nil {
 			return err
 		}
-		after3 := mustSnapshot(dir)
+		after3 := mustSnapshot(snapRoot)
 		for _, ch := range modspec.Diff(after2, after3) {
 			return fmt.Errorf("third run (All) on unchanged inputs %s %s", ch.Kind, ch.Path)
 		}
@@ -320,6 +379,9 @@ func c4Features(c c4Case) []string {
 	}
 	if c.base() < "doc" {
 		fs["generated-file-sorts-first"] = true
+	}
+	if c.Sib {
+		fs["second-module-with-non-entrypoint-dependency"] = true
 	}
 	if c.Children > 0 {
 		fs["fresh-process"] = true
